@@ -58,6 +58,7 @@ type c18session struct {
 	httpPath []string
 	sealed   bool
 	stray    int
+	refused  bool // via "refuse-first": the first TCP connect has been refused
 
 	wg     sync.WaitGroup
 	ctx    context.Context
@@ -132,6 +133,17 @@ func (c18sink) Dial(ctx context.Context, network, addr string) (net.Conn, error)
 	s := c18cur.Load()
 	if s == nil || !s.add(vnet.Rec{Kind: "dial", Network: network, Addr: addr}) {
 		return nil, errC18NoSession
+	}
+	if s.cfg.Via == "refuse-first" && strings.HasPrefix(network, "tcp") {
+		s.mu.Lock()
+		first := !s.refused
+		s.refused = true
+		s.mu.Unlock()
+		if first {
+			// connection refused at the configured destination: whatever the upstream tries
+			// next is recorded and judged like any other dial
+			return nil, errors.New("connect: connection refused (injected)")
+		}
 	}
 	a, b := c18pipe(network, addr)
 	s.track(b)
